@@ -6,7 +6,7 @@ import tempfile
 
 from hypothesis import given, strategies as st
 
-from harness import core, backends
+from harness import core, backends, ir
 
 RULE = ("per proof-producing backend configuration (snarkjs; zkinterface with bn128, bellman/bls12-381, "
         "bulletproofs/curve25519 through their own modules; qaptools) loaded directly from /repo: expression trees "
@@ -20,7 +20,7 @@ RULE = ("per proof-producing backend configuration (snarkjs; zkinterface with bn
         "depth >= 2 with a repeated variable and a scalar outside [0,p), or a long combination (sums of 12-60 terms over up to 48 "
         "variables combined so that some wires cancel exactly and others recur); distinct by case digest. libsnark's native "
         "class is not available offline and is NOT covered.")
-RULE += " Extensions (seeded rounds 10-15): boolean scalars (content and text as for 1 / 0), long combinations scaled repeatedly and built without looking at intermediate objects, requests for another field after values exist (refused means nothing changed)."
+RULE += " Extensions (seeded rounds 10-15): boolean scalars (content and text as for 1 / 0), long combinations scaled repeatedly and built without looking at intermediate objects, requests for another field after values exist (refused means nothing changed). Scalar sweep: scaling by every k, -k, p-k for k = 1..10001 (thorough 70001) and around the powers of two and ten above; table-boundary constants among the generated scalars."
 
 CONFIGS = ["snarkjs", "zkinterface", "zkifbellman", "zkifbulletproofs", "qaptools"]
 
@@ -278,7 +278,8 @@ def algebra_shard(name, seed, n_examples):
                 if k == 6:
                     return ["neg", tree(dep + 1)]
                 return ["mul", tree(dep + 1), draw(st.one_of(st.integers(-3, 3), st.integers(0, p - 1), st.booleans(),
-                                                             st.sampled_from([0, -1, p, p + 1, -p, 2 * p + 1, 1 << 256, (1 << 300) + 1, -(1 << 257)])))]
+                                                             st.sampled_from([0, -1, p, p + 1, -p, 2 * p + 1, 1 << 256, (1 << 300) + 1, -(1 << 257)]),
+                                                             st.sampled_from(ir.MAGIC).flatmap(lambda v_: st.sampled_from([v_, -v_]))))]
             t = wide_tree() if wide else tree(0)
             if wide:
                 # a long combination scaled / negated several times in a row, with nothing reading the intermediate results
@@ -414,6 +415,36 @@ def setmod_shard(name):
     return stats
 
 
+def sweep_shard(name, n):
+    """scaling by every k, -k, p - k for k = 1..n and around the powers of two and ten above n (round numbers are where tables of
+    ready-made small coefficients end), in several trees per block of scalars"""
+    stats = core.Stats()
+    cx = Ctx(name)
+    try:
+        p = cx.p
+        ks = list(range(1, n + 1)) + sorted({b + d for e in range(1, 80) for b in (1 << e, 10 ** (e // 3)) for d in (-1, 0, 1) if b + d > n})
+        B = 25
+        for i in range(0, len(ks), B):
+            blk = ks[i:i + B]
+            tree = ["zero"]
+            for j, k in enumerate(blk):
+                # k * x_j  -  (-k) * 1  +  (p - k) * x_{j+1}, scaled once more by k in every third term
+                term = ["add", ["mul", ["var", j % 3], k], ["sub", ["mul", ["var", (j + 1) % 3], p - k], ["mul", ["one"], -k]]]
+                if j % 3 == 0:
+                    term = ["mul", ["add", term, ["var", 2]], k]
+                tree = ["add", tree, term] if j % 2 else ["sub", term, tree]
+            for style, unobs in (("op", False), ("dunder", True)):
+                case = {"config": name, "part": "algebra", "vars": [("priv", 3), ("pub", 5 + i), ("priv", -7)], "tree": tree, "unobserved": unobs, "style": style}
+                msg = judge(cx, case)
+                stats.case(case, True, ("scalar-sweep:" + name,), sample_cap=1)
+                if msg:
+                    stats.violations.append({"case": case, "msg": "scalars %d..%d: %s" % (blk[0], blk[-1], msg[:600]), "key": "sweep"})
+                    return stats
+    finally:
+        cx.close()
+    return stats
+
+
 def run(ctx):
     ctx.rule = RULE
     ctx.assumptions = ["representation evaluators in harness/checks/c13.py", "flatbuffers stand-in only needed to import the zkinterface modules",
@@ -423,4 +454,5 @@ def run(ctx):
     jobs = [dict(name=c, seed=ctx.seed * 1000 + 17 * i + k, n_examples=n) for i, c in enumerate(CONFIGS) for k in range(reps)]
     ctx.stats = core.run_shards("harness.checks.c13", "algebra_shard", jobs)
     ctx.stats.merge_json(core.run_shards("harness.checks.c13", "setmod_shard", [dict(name=c) for c in CONFIGS if c.startswith("zk")] + [dict(name="zkinterface")]).to_json())
+    ctx.stats.merge_json(core.run_shards("harness.checks.c13", "sweep_shard", [dict(name=c, n=10001 if ctx.tier == "quick" else 70001) for c in CONFIGS]).to_json())
     ctx.stats.extra["configs"] = CONFIGS
